@@ -12,11 +12,26 @@ the checks C06, C07 and C08 next to the translator tie of harness/rhs_lib.py.
   point_check(EoN, rng, n)   n points per function, rel 1e-9; returns a report like rhs_lib.point_check
 
 Every point is a JSON-able dict (numbers as strings of Fractions) so that it can be replayed."""
-import math
+import math, os, sys, json, subprocess
 from fractions import Fraction as F
 from . import common as C
 
 COMP = 'rhs2'
+TRANSLATOR = os.path.join(C.VERIF, 'translate', 'rhs2d2v.py')
+SIGFILE = os.path.join(C.COQ, 'Gen', 'rhs2_sig.json')
+
+
+class Rhs2Refused(Exception):
+    """translate/rhs2d2v.py refused the current source (construct outside its fragment)"""
+
+
+def regen():
+    """re-run the translator of the node-level / 2-D right-hand sides from C.REPO -> coq/Gen/Rhs2.v"""
+    env = dict(os.environ); env['EON_REPO'] = C.REPO
+    p = subprocess.run(['timeout', '120', sys.executable, TRANSLATOR, '--repo', C.REPO], capture_output=True, text=True, env=env)
+    if p.returncode != 0:
+        raise Rhs2Refused((p.stderr or p.stdout).strip()[-600:])
+    return json.load(open(SIGFILE))['rhs2']
 NODE = ['_dSIS_individual_based_', '_dSIR_individual_based_', '_dSIS_pair_based_', '_dSIR_pair_based_']
 CLASS = ['_dSIS_heterogeneous_pairwise_', '_dSIR_heterogeneous_pairwise_', '_dSIS_effective_degree_', '_dSIR_effective_degree_']
 FUNCS = NODE + CLASS
@@ -224,7 +239,7 @@ def eval_model_many(cases):
     return [parse_out(o) for o in C.run_model(lines, COMP)]
 
 
-def point_check(EoN, rng, n_per_fn, tol=1e-9, funcs=None):
+def point_check(EoN, rng, n_per_fn, tol=1e-9, funcs=None, generated=True):
     cases = []
     for name in (funcs or FUNCS):
         got = 0; tries = 0
@@ -242,18 +257,22 @@ def point_check(EoN, rng, n_per_fn, tol=1e-9, funcs=None):
             cases.append((name, p, py)); got += 1
     lines = [model_line(n, p) for n, p, _ in cases]
     outs = C.run_model(lines, COMP)
-    mism = []; per = {}; samples = []
-    for (name, p, py), o in zip(cases, outs):
-        per.setdefault(name, 0)
-        try:
-            mo = [float(x) for x in parse_out(o)]
-        except Exception:
-            mism.append((name, p, py, 'model driver failure: %s' % o[:200])); continue
-        ok = (not isinstance(py, str)) and len(py) == len(mo) and all(C.close(x, y, tol) for x, y in zip(py, mo))
-        if ok:
-            per[name] += 1
-            if len(samples) < 2 and len(py) > 4 and any(abs(x) > 0 for x in py):
-                samples.append({'rhs2_point': {'function': name, 'point': p, 'python': py[:8], 'model': mo[:8]}})
-        else:
-            mism.append((name, p, py, mo))
-    return {'n': len(cases), 'distinct': len(set(lines)), 'mism': mism, 'per_fn': per, 'samples': samples}
+    gouts = C.run_model(['G' + l for l in lines], COMP) if generated else [None] * len(lines)
+    mism = []; gmism = []; per = {}; gper = {}; samples = []
+    for (name, p, py), o, go in zip(cases, outs, gouts):
+        per.setdefault(name, 0); gper.setdefault(name, 0)
+        for which, oo, mm, pp in (('model', o, mism, per), ('generated', go, gmism, gper)):
+            if oo is None:
+                continue
+            try:
+                mo = [float(x) for x in parse_out(oo)]
+            except Exception:
+                mm.append((name, p, py, '%s driver failure: %s' % (which, oo[:200]))); continue
+            ok = (not isinstance(py, str)) and len(py) == len(mo) and all(C.close(x, y, tol) for x, y in zip(py, mo))
+            if ok:
+                pp[name] += 1
+                if which == 'model' and len(samples) < 2 and len(py) > 4 and any(abs(x) > 0 for x in py):
+                    samples.append({'rhs2_point': {'function': name, 'point': p, 'python': py[:8], 'model': mo[:8]}})
+            else:
+                mm.append((name, p, py, mo))
+    return {'n': len(cases), 'distinct': len(set(lines)), 'mism': mism, 'per_fn': per, 'samples': samples, 'gen_mism': gmism, 'gen_per_fn': gper}
